@@ -17,6 +17,11 @@
             7 0 goroutine at gate 2         8 0 goroutine at gate 3         9 0 goroutine finished
             10 0 goroutine inside SetResult between the swap of isDone and the publication
             11 0 the Resolve call panicked (the model never produces it; clause 8)
+            12 0 returned (_, context.DeadlineExceeded)    13 0 returned (_, the cancellation cause of a context cancelled with a
+                 cause): the harness hands out contexts of three flavours (plain; ending like a deadline: Err() = DeadlineExceeded;
+                 cancelled with a cause: Err() = Canceled, Cause = that cause); the flavour is not part of the event because Once
+                 returns the literal context.Canceled for all of them.  The harness-owned callback never returns these two
+                 errors, so they can only come from a context; the model never produces these codes (clause 10)
    ---- memo ----
    Events   [1]       call the memoized function in a new actor
             [2 i k]   fn (running on actor i) returns: k=0 (i+1, nil), k>=1 the value k-1 TOGETHER WITH error i+1 (k=1: (0, error))
@@ -240,6 +245,10 @@ Definition mon_once (m : monst) (e o : list N) : monst * list (nat * nat) :=
     | None => false
     end in
   let f9 := existsb bad_taint newly in
+  (* clause 10: "a caller whose own context is cancelled gets context.Canceled": the error a Resolve call returns on account
+     of a context is context.Canceled itself, never the context's own Err() (DeadlineExceeded, status 12) nor its
+     cancellation cause (status 13), whatever kind of context the caller (or the starter of the invocation) brought *)
+  let f10 := existsb (fun z : mact * (N * N) => N.eqb (fst (snd z)) 12 || N.eqb (fst (snd z)) 13) zs in
   (* 3. bookkeeping *)
   let err_returned := fun e : N => existsb (fun z : mact * (N * N) => N.eqb (fst (snd z)) 5 && N.eqb (snd (snd z)) e) zs in
   let acts3 :=
@@ -262,7 +271,8 @@ Definition mon_once (m : monst) (e o : list N) : monst * list (nat * nat) :=
     (if f4 then [(16, 4)] else []) ++
     (if f5 then [(16, 5)] else []) ++
     (if f8 then [(16, 8)] else []) ++
-    (if f9 then [(16, 9)] else []) in
+    (if f9 then [(16, 9)] else []) ++
+    (if f10 then [(16, 10)] else []) in
   ({| mstepno := S i; macts := acts3; msucc := succ1 |}, fails).
 
 Definition run_check_once (cfg : list N) (evs obss : list (list N)) : list issue :=
